@@ -1294,7 +1294,7 @@ namespace xsimd
                 {
                     batch_type p = floor(q);
                     batch_type z = q - p;
-                    auto test2 = z < batch_type(0.5);
+                    auto test2 = z > batch_type(0.5); // z - 1 is exact there; subtracting 1 from a small z would round it away
                     z = select(test2, z - batch_type(1.), z);
                     z = q * sin(z, trigo_pi_tag());
                     return -log(constants::invpi<batch_type>() * abs(z)) - w;
@@ -1422,7 +1422,7 @@ namespace xsimd
                     batch_type w = lgamma(q);
                     batch_type p = floor(q);
                     batch_type z = q - p;
-                    auto test2 = (z < batch_type(0.5));
+                    auto test2 = (z > batch_type(0.5)); // z - 1 is exact there; subtracting 1 from a small z would round it away
                     z = select(test2, z - batch_type(1.), z);
                     z = q * sin(z, trigo_pi_tag());
                     z = abs(z);
@@ -2481,7 +2481,7 @@ namespace xsimd
                 B p = floor(a);
                 B sgngam = select(is_even(p), -B(1.), B(1.));
                 B z = a - p;
-                auto test2 = z < B(0.5);
+                auto test2 = z > B(0.5); // z - 1 is exact there; subtracting 1 from a small z would round it away
                 z = select(test2, z - B(1.), z);
                 z = a * sin(z, trigo_pi_tag());
                 z = abs(z);
